@@ -1,8 +1,8 @@
 (* C07 - Biproportional result meets both marginals and is divisor-consistent.
    Property theorems only.  Model: Model/Biprop.v; proofs: Proofs/Biprop_proofs.v.
 
-   Level of the claim: proof about a model of the whole evaluate (Model/BipropLoop.v: partial correctness, C07_evaluate_*;
-   termination, C07_terminates; the opening refusal, C07_no_votes_refusal*), tied to the code by correspondence; besides,
+   Level of the claim: proof about a model of the whole evaluate (Model/BipropLoop.v: partial correctness, C07_evaluate_partial_correct;
+   termination, C07_terminates; the opening refusal, C07_no_votes_refusal), tied to the code by correspondence; besides,
    EVERY output of BiproportionalEvaluator.evaluate is validated by the certificate checker [cert_ok], which is
    proved below to be sound and complete for the declarative statement [biprop_spec]:
 
@@ -157,8 +157,8 @@ Qed.
    tied districts), _initial_party_coefs, _districts_unsat, _calc_quots, _labeled, the path walk of _augment_result,
    _adj_coef and the multiplier update, iterated on explicit fuel.  [q] is signpost_q, [d] the divisor function; the
    evaluator knows q for d_hondt (0) and sainte_lague (1/2), i.e. d s = k (s + 1 - q) with k = 1 / k = 2.
-   Hypotheses: the vote matrix is a dict of dicts (keys without repetition) of non-negative integers, one of them
-   positive; n >= 0; [dorder] (the iteration order of the frozenset of district names, which is where Python's set
+   Hypotheses: the vote matrix is a dict of dicts (keys without repetition) of non-negative integers;
+   n >= 0; [dorder] (the iteration order of the frozenset of district names, which is where Python's set
    order reaches the algorithm) lists every district.  Running out of fuel (and every refusal: BP_no_votes, BP_refused,
    BP_zero_division, BP_key_error, BP_value_error, a tied marginal) is a different constructor; that the fuel of 7' (e)
    is never exhausted is the termination theorem C07_terminates. *)
